@@ -1389,27 +1389,24 @@ static CUR_START_MS: std::sync::atomic::AtomicU64 = std::sync::atomic::AtomicU64
 /// into a prompt abort (non-zero exit ⇒ the driver reports the shard as crashed and re-runs it with case tracing).
 fn start_watchdog(seed: u64, shard: u64) {
     use std::sync::atomic::Ordering::Relaxed;
-    let t0 = std::time::Instant::now();
     std::thread::spawn(move || loop {
         std::thread::sleep(std::time::Duration::from_millis(500));
-        let now = t0.elapsed().as_millis() as u64;
         let k = CUR_CASE.load(Relaxed);
         if k == u64::MAX {
             continue;
         }
-        let running = now.saturating_sub(CUR_START_MS.load(Relaxed));
+        // CPU time burnt since the case started (not wall-clock: a starved shard must not look like a hang)
+        let running = crate::report::cpu_ms().saturating_sub(CUR_START_MS.load(Relaxed));
         let rss_mb = std::fs::read_to_string("/proc/self/statm").ok().and_then(|s| s.split_whitespace().nth(1).and_then(|x| x.parse::<u64>().ok())).map(|p| p * 4096 / (1 << 20)).unwrap_or(0);
-        if running > 30_000 || rss_mb > 3_000 {
-            eprintln!("C09 watchdog: case k={k} (seed {seed}, shard {shard}) has been running {running} ms, RSS {rss_mb} MB — a simplification call does not terminate / grows without bound; aborting");
+        if CUR_CASE.load(Relaxed) == k && (running > 30_000 || rss_mb > 3_000) {
+            eprintln!("C09 watchdog: case k={k} (seed {seed}, shard {shard}) has burnt {running} ms of CPU, RSS {rss_mb} MB — a simplification call does not terminate / grows without bound; aborting");
             std::process::abort();
         }
     });
-    CUR_START_MS.store(0, Relaxed);
 }
 
 pub fn run(ctx: &Ctx, sh: &mut Shard) {
     let thorough = ctx.tier == "thorough";
-    let t0 = std::time::Instant::now();
     start_watchdog(ctx.seed, ctx.shard);
     sh.notes.insert("tolerances".into(), json!({
         "rdp.eps": format!("dropped vertex violates when exact distance > eps·(1+{}u); exact ties and everything inside the allowance get no verdict", K_DIST),
@@ -1423,7 +1420,7 @@ pub fn run(ctx: &Ctx, sh: &mut Shard) {
             break;
         }
         ctx.mark_case(k);
-        CUR_START_MS.store(t0.elapsed().as_millis() as u64, std::sync::atomic::Ordering::Relaxed);
+        CUR_START_MS.store(crate::report::cpu_ms(), std::sync::atomic::Ordering::Relaxed);
         CUR_CASE.store(k, std::sync::atomic::Ordering::Relaxed);
         let mut r = Rng::derive(ctx.seed, ctx.shard, k);
         sh.cases += 1;
@@ -1471,6 +1468,8 @@ pub fn run(ctx: &Ctx, sh: &mut Shard) {
             check_geom(sh, &ig, &lat, e, false);
         }
     }
+    // no case is running any more (writing the shard result is not a simplification call)
+    CUR_CASE.store(u64::MAX, std::sync::atomic::Ordering::Relaxed);
 }
 
 pub fn replay(v: &Value, sh: &mut Shard) {
